@@ -29,6 +29,12 @@ Where things are:
   `retained_intensity` — `deisotope`
 * `process_derived_plain`, `retained_not_in_envelope`, `process_retained_intensity` — masses / sources / intensities of
   the output peaks of `process`
+* general case (NaN, ±∞, −0.0, negative values): `heapify_topk_key`, `process_sorted_total`, `process_nodeiso_total`,
+  `process_ms1_total`, `process_deiso_total` (only `total_cmp` total: `TotalNum`, which the driver's `Float32` instance
+  satisfies by definition); `envelope_lighter_ieee`, `charge_witness_ieee`, `envelope_witness_ieee`,
+  `protected_region_ieee` (three IEEE facts: `IeeeNum`)
+* whole `ProcessedSpectrum` and `process_with_mobility`: `processFull_panics_iff`, `processFull_passthrough`,
+  `processIms_panics_iff`, `processIms_spec`
 * `model_meets_spec_process`, `model_meets_spec_deisotope` — the executable checkers the driver applies to the
   implementation accept the model's output on every input
 -/
@@ -1853,4 +1859,583 @@ example : ∃ out t, process (cfgZ true) rawZ = some (out, t) ∧ out ≠ [] := 
 #guard process (cfgZ true) rawZ == some ([⟨7, 98999⟩, ⟨100 + (70 + (20 + 5)) + 50, 199998⟩], 252)
 
 end accounting3
+
+/-! ## general case: non-finite values (NaN, ±∞, −0.0, negative) — only `total_cmp` is assumed to be a total order -/
+
+/-- `total_cmp` is a strict total order read off a key in some linear order (`f32::total_cmp`: the sign-magnitude bit
+    pattern as a signed integer).  Nothing is assumed about IEEE `<=`/`<` or the arithmetic, so NaN, ±∞, −0.0, negative
+    and subnormal values are all covered. -/
+class TotalNum (α : Type) [Num α] where
+  K : Type
+  [ord : LinearOrder K]
+  key : α → K
+  tltB_eq : ∀ x y : α, Num.tltB x y = decide (key x < key y)
+
+
+instance {α : Type} [Num α] [TotalNum α] : LinearOrder (TotalNum.K α) := TotalNum.ord
+
+/-- the driver's `Float32` instance satisfies `TotalNum` by definition (`tltB a b = decide (f32Key a < f32Key b)`) -/
+instance : TotalNum Float32 where
+  K := Int
+  ord := inferInstance
+  key := f32Key
+  tltB_eq := fun _ _ => rfl
+
+/-- a lawful (NaN-free) number type is a special case: the key is the value itself -/
+instance lawfulTotal {α : Type} [LinearOrder α] [Num α] [LawfulNum α] : TotalNum α where
+  K := α
+  ord := inferInstance
+  key := id
+  tltB_eq := LawfulNum.tltB_eq
+
+section heapkey
+variable {β K : Type} [LinearOrder K]
+
+/-- the comparison `T: Ord` induces through a key -/
+abbrev klt (f : β → K) : β → β → Bool := fun x y => decide (f x < f y)
+
+theorem lt?_map (f : β → K) (a : Array β) (c s : Nat) : lt? (klt f) a c s = lt? dlt (a.map f) c s := by
+  unfold lt?
+  simp only [Array.getElem?_map]
+  cases a[c]? <;> cases a[s]? <;> rfl
+
+theorem smaller_map (f : β → K) (a : Array β) (k c s : Nat) : smaller (klt f) a k c s = smaller dlt (a.map f) k c s := by
+  unfold smaller; rw [lt?_map]
+
+omit [LinearOrder K] in
+theorem swap_map (f : β → K) (a : Array β) (s i : Nat) :
+    (a.swapIfInBounds s i).map f = (a.map f).swapIfInBounds s i := by
+  by_cases hs : s < a.size
+  · by_cases hi : i < a.size
+    · apply Array.ext_getElem?
+      intro n
+      rw [Array.getElem?_map, get_swap a s i n hs hi, get_swap (a.map f) s i n (by simpa using hs) (by simpa using hi)]
+      simp only [Array.getElem?_map]
+      split
+      · rfl
+      · split <;> rfl
+    · simp [Array.swapIfInBounds_def, hi]
+  · simp [Array.swapIfInBounds_def, hs]
+
+theorem siftDown_map (f : β → K) (k : Nat) (fuel : Nat) : ∀ (a : Array β) (i : Nat),
+    (siftDown (klt f) a k i fuel).map f = siftDown dlt (a.map f) k i fuel := by
+  induction fuel with
+  | zero => intro a i; rfl
+  | succ n ih =>
+    intro a i
+    unfold siftDown
+    rw [smaller_map f a k (2*i+1) i, smaller_map f a k (2*i+2)]
+    split
+    · simp only []
+      split
+      · rw [ih, swap_map]
+      · rfl
+    · rfl
+
+theorem buildHeap_map (f : β → K) (k : Nat) (n : Nat) : ∀ (a : Array β),
+    (buildHeap (klt f) a k n).map f = buildHeap dlt (a.map f) k n := by
+  induction n with
+  | zero => intro a; rfl
+  | succ n ih => intro a; unfold buildHeap; rw [ih, siftDown_map]
+
+theorem scanLoop_map (f : β → K) (k : Nat) (fuel : Nat) : ∀ (a : Array β) (i : Nat),
+    (scanLoop (klt f) a k i fuel).map f = scanLoop dlt (a.map f) k i fuel := by
+  induction fuel with
+  | zero => intro a i; rfl
+  | succ n ih =>
+    intro a i
+    unfold scanLoop
+    rw [lt?_map f a 0 i, Array.size_map]
+    split
+    · split
+      · rw [ih, siftDown_map, swap_map]
+      · rw [ih]
+    · rfl
+
+theorem boundedMinHeapify_map (f : β → K) (a : Array β) (k : Nat) :
+    (boundedMinHeapify (klt f) a k).map f = boundedMinHeapify dlt (a.map f) k := by
+  unfold boundedMinHeapify
+  simp only [Array.size_map]
+  split
+  · rfl
+  · rw [scanLoop_map, buildHeap_map]
+
+end heapkey
+
+/-- **C10.heapify_topk_key** — `bounded_min_heapify` for an element type whose `Ord` is a total PRE-order given by a key
+    (distinct elements may compare equal — e.g. peaks under `total_cmp` with the Lean-invisible NaN payloads): for
+    `0 < k < len`, every element kept in the first `k` slots has a key ≥ the key of every element after them. -/
+theorem heapify_topk_key {β K : Type} [LinearOrder K] (f : β → K) (lt : β → β → Bool)
+    (hlt : ∀ x y, lt x y = decide (f x < f y)) (a : Array β) (k : Nat) (hk0 : 0 < k) (hk : k < a.size) :
+    ∀ t j x y, t < k → k ≤ j → (boundedMinHeapify lt a k)[t]? = some x →
+      (boundedMinHeapify lt a k)[j]? = some y → f y ≤ f x := by
+  have : lt = klt f := by funext x y; exact hlt x y
+  subst this
+  intro t j x y ht hj hx hy
+  have hm := boundedMinHeapify_map f a k
+  have hx' : (boundedMinHeapify dlt (a.map f) k)[t]? = some (f x) := by
+    rw [← hm, Array.getElem?_map, hx]; rfl
+  have hy' : (boundedMinHeapify dlt (a.map f) k)[j]? = some (f y) := by
+    rw [← hm, Array.getElem?_map, hy]; rfl
+  exact heapify_topk_dlt (a.map f) k hk0 (by simpa using hk) t j (f x) (f y) ht hj hx' hy'
+
+-- keys need not be injective: pairs compared by their first component only
+example : ((boundedMinHeapify (fun (x y : Nat × Nat) => decide (x.1 < y.1))
+    #[(5, 0), (1, 1), (5, 2), (3, 3), (7, 4), (2, 5), (5, 6)] 3).toList.take 3).map (·.1) = [5, 7, 5] := by decide
+
+
+section totalproc
+variable {α : Type} [Num α] [TotalNum α]
+open TotalNum
+
+/-- key of `Ord for Peak`: lexicographic (intensity, mass) under `total_cmp` -/
+def pkey (a : Peak α) : Lex (K α × K α) := toLex (key a.intensity, key a.mass)
+
+theorem peakLt_key (a b : Peak α) : peakLt a b = decide (pkey a < pkey b) := by
+  rw [Bool.eq_iff_iff, decide_eq_true_eq]
+  unfold peakLt pkey
+  rw [Prod.Lex.toLex_lt_toLex]
+  simp only [tltB_eq, Bool.or_eq_true, Bool.and_eq_true, Bool.not_eq_true', decide_eq_true_eq,
+    decide_eq_false_iff_not, not_lt]
+  constructor
+  · rintro (h | ⟨h1, h2⟩)
+    · exact Or.inl h
+    · rcases lt_or_eq_of_le h1 with h | h
+      · exact Or.inl h
+      · exact Or.inr ⟨h, h2⟩
+  · rintro (h | ⟨h1, h2⟩)
+    · exact Or.inl h
+    · exact Or.inr ⟨le_of_eq h1, h2⟩
+
+theorem massLe_key (a b : Peak α) : massLe a b = true ↔ key a.mass ≤ key b.mass := by
+  unfold massLe
+  simp [tltB_eq]
+
+theorem sorted_mergeSort_mass_total (l : List (Peak α)) :
+    (l.mergeSort massLe).Pairwise (fun a b => Num.tltB b.mass a.mass = false) := by
+  have h := List.pairwise_mergeSort (le := (massLe : Peak α → Peak α → Bool))
+    (by intro a b c; simp only [massLe_key]; exact le_trans)
+    (by intro a b; simp only [Bool.or_eq_true, massLe_key]; exact le_total _ _) l
+  refine h.imp ?_
+  intro a b hab
+  unfold massLe at hab
+  simpa using hab
+
+/-- **C10.process_sorted_total** — for ANY values (NaN, ±∞, −0.0, negative …): the peaks `process` returns are sorted by
+    mass under `total_cmp` (no later peak compares `Less` than an earlier one), and `t = tic out`. -/
+theorem process_sorted_total (cfg : Cfg α) (r : Raw α) (out : List (Peak α)) (t : α)
+    (h : process cfg r = some (out, t)) :
+    out.Pairwise (fun a b => Num.tltB b.mass a.mass = false) ∧ t = tic out := by
+  unfold process at h
+  generalize (if r.level = 2 then processMs2 cfg r else some (r.peaks.map toPeak)) = pre at h
+  cases pre with
+  | none => simp at h
+  | some l =>
+    simp only [Option.some.injEq, Prod.mk.injEq] at h
+    obtain ⟨rfl, rfl⟩ := h
+    exact ⟨sorted_mergeSort_mass_total _, rfl⟩
+
+/-- **C10.process_nodeiso_total** — `process_nodeiso` without the NaN-free assumption: for ANY values the output of MS2
+    processing without deisotoping is a permutation of `kept`, where `map toPeak input ~ kept ++ dropped`,
+    `|kept| = min n k`, no kept peak compares `Less` (in `Ord for Peak`, i.e. `total_cmp` on intensity then mass) than a
+    dropped one; sorted by mass under `total_cmp`; the code does not panic. -/
+theorem process_nodeiso_total (cfg : Cfg α) (r : Raw α) (h2 : r.level = 2) (hc : r.centroid = true)
+    (hd : cfg.deisotope = false) :
+    ∃ kept dropped out,
+      process cfg r = some (out, tic out) ∧
+      (r.peaks.map toPeak).Perm (kept ++ dropped) ∧
+      out.Perm kept ∧
+      out.Pairwise (fun a b => Num.tltB b.mass a.mass = false) ∧
+      kept.length = min r.peaks.length cfg.takeTopN ∧
+      (∀ d ∈ dropped, ∀ x ∈ kept, peakLt x d = false) := by
+  set k := cfg.takeTopN with hk
+  set a := (r.peaks.map toPeak).toArray with ha
+  set H := (boundedMinHeapify peakLt a k).toList with hH
+  have hperm : H.Perm (r.peaks.map toPeak) := by
+    have := heapify_perm (peakLt : Peak α → Peak α → Bool) a k
+    simpa [ha] using this
+  have hlen : H.length = r.peaks.length := by simpa using hperm.length_eq
+  refine ⟨H.take k, H.drop k, (H.take k).mergeSort massLe, ?_, ?_, ?_, ?_, ?_, ?_⟩
+  · simp [process, processMs2, h2, hc, hd, ← hk, ← ha, ← hH]
+  · rw [List.take_append_drop]; exact hperm.symm
+  · exact List.mergeSort_perm _ _
+  · exact sorted_mergeSort_mass_total _
+  · rw [List.length_take, hlen, Nat.min_comm]
+  · intro d hdm x hxm
+    rcases Nat.eq_zero_or_pos k with hk0 | hk0
+    · rw [hk0] at hxm; simp at hxm
+    · by_cases hkn : k < a.size
+      · obtain ⟨j, hj⟩ := List.mem_iff_getElem?.mp hdm
+        obtain ⟨t, ht⟩ := List.mem_iff_getElem?.mp hxm
+        rw [List.getElem?_drop] at hj
+        rw [List.getElem?_take] at ht
+        split at ht
+        · next htk =>
+          have hle := heapify_topk_key pkey (peakLt : Peak α → Peak α → Bool) peakLt_key a k hk0 hkn t (k + j) x d htk
+            (Nat.le_add_right _ _)
+            (by rw [← Array.getElem?_toList]; exact ht) (by rw [← Array.getElem?_toList]; exact hj)
+          rw [peakLt_key]
+          simpa using hle
+        · cases ht
+      · have : H.drop k = [] := by
+          apply List.drop_eq_nil_of_le
+          rw [hlen]; simp [ha] at hkn; exact hkn
+        rw [this] at hdm; cases hdm
+
+/-- **C10.process_ms1_total** — any level other than 2, ANY values: every peak is kept (a permutation of the converted
+    input), sorted by mass under `total_cmp`. -/
+theorem process_ms1_total (cfg : Cfg α) (r : Raw α) (h : r.level ≠ 2) :
+    ∃ out, process cfg r = some (out, tic out) ∧ out.Perm (r.peaks.map toPeak) ∧
+      out.Pairwise (fun a b => Num.tltB b.mass a.mass = false) ∧ out.length = r.peaks.length := by
+  refine ⟨(r.peaks.map toPeak).mergeSort massLe, ?_, List.mergeSort_perm _ _, sorted_mergeSort_mass_total _, ?_⟩
+  · simp [process, h]
+  · simp
+
+/-- sort key of the deisotope branch under `total_cmp`: intensity descending, then m/z ascending -/
+def dkey (d : Deiso α) : Lex ((K α)ᵒᵈ × K α) := toLex (OrderDual.toDual (key d.intensity), key d.mz)
+
+theorem deisoBefore_key (a b : Deiso α) : deisoBefore a b = true ↔ dkey a < dkey b := by
+  unfold deisoBefore dkey
+  rw [Prod.Lex.toLex_lt_toLex]
+  simp only [tltB_eq, Bool.or_eq_true, Bool.and_eq_true, Bool.not_eq_true', decide_eq_true_eq,
+    decide_eq_false_iff_not, not_lt, OrderDual.toDual_lt_toDual, EmbeddingLike.apply_eq_iff_eq]
+  constructor
+  · rintro (h | ⟨h1, h2⟩)
+    · exact Or.inl h
+    · rcases lt_or_eq_of_le h1 with h | h
+      · exact Or.inl h
+      · exact Or.inr ⟨h.symm, h2⟩
+  · rintro (h | ⟨h1, h2⟩)
+    · exact Or.inl h
+    · exact Or.inr ⟨le_of_eq h1.symm, h2⟩
+
+theorem retainedSorted_total (d : List (Deiso α)) :
+    (retainedSorted d).Perm (d.filter (fun p => p.envelope.isNone)) ∧
+    (retainedSorted d).Pairwise (fun a b => deisoBefore b a = false) := by
+  unfold retainedSorted
+  refine ⟨(List.mergeSort_perm _ _).filter _, ?_⟩
+  have hle : ∀ a b : Deiso α, deisoLe a b = true ↔ dkey a ≤ dkey b := by
+    intro a b
+    unfold deisoLe
+    rw [Bool.not_eq_true', ← Bool.not_eq_true, deisoBefore_key, not_lt]
+  have h := List.pairwise_mergeSort (le := (deisoLe : Deiso α → Deiso α → Bool))
+    (by intro a b c; simp only [hle]; exact le_trans)
+    (by intro a b; simp only [Bool.or_eq_true, hle]; exact le_total _ _) d
+  refine (h.filter _).imp ?_
+  intro a b hab
+  unfold deisoLe at hab
+  simpa using hab
+
+/-- **C10.process_deiso_total** — `process_deiso` without the NaN-free assumption: for ANY values the output of the
+    deisotope branch is the image of the first `max_peaks` envelope-free entries in the order
+    (intensity descending, m/z ascending) under `total_cmp`, sorted by mass under `total_cmp`, at most `max_peaks`. -/
+theorem process_deiso_total (cfg : Cfg α) (r : Raw α) (h2 : r.level = 2) (hc : r.centroid = true)
+    (hd : cfg.deisotope = true) :
+    ∃ (R : List (Deiso α)) (out : List (Peak α)),
+      process cfg r = some (out, tic out) ∧
+      R.Perm ((deisotope r.peaks (r.charge.getD 3) (Num.ofNat 10) cfg.minDeisoMz).filter (fun d => d.envelope.isNone)) ∧
+      R.Pairwise (fun a b => deisoBefore b a = false) ∧
+      out.Perm ((R.take cfg.takeTopN).map deisoToPeak) ∧
+      out.Pairwise (fun a b => Num.tltB b.mass a.mass = false) ∧
+      out.length = min R.length cfg.takeTopN := by
+  set D := deisotope r.peaks (r.charge.getD 3) (Num.ofNat 10) cfg.minDeisoMz with hD
+  obtain ⟨hp, hs⟩ := retainedSorted_total D
+  refine ⟨retainedSorted D, (((retainedSorted D).map deisoToPeak).take cfg.takeTopN).mergeSort massLe,
+    ?_, hp, hs, ?_, sorted_mergeSort_mass_total _, ?_⟩
+  · simp [process, processMs2, h2, hc, hd, ← hD]
+  · rw [List.map_take]; exact List.mergeSort_perm _ _
+  · rw [List.length_mergeSort, List.length_take, List.length_map, Nat.min_comm]
+
+end totalproc
+
+/-! the general theorems apply verbatim to the driver's `Float32` model (`TotalNum Float32` holds by definition) -/
+example (cfg : Cfg Float32) (r : Raw Float32) (h2 : r.level = 2) (hc : r.centroid = true) (hd : cfg.deisotope = false) :=
+  process_nodeiso_total cfg r h2 hc hd
+-- a spectrum with NaN and ±∞ m/z and intensities: processed without panic, NaN mass last, TIC = NaN
+#guard ((process (α := Float32) { takeTopN := 3, deisotope := false, minDeisoMz := 0 }
+    { level := 2, centroid := true, charge := none,
+      peaks := [(Float32.ofBits 0x7fc00000, 5), (300, Float32.ofBits 0x7fc00000), (Float32.ofBits 0xff800000, 2), (200, 1),
+        (Float32.ofBits 0x7f800000, 9)] }).map
+    (fun o => (o.1.map (fun p => p.mass.toBits), o.2.toBits))) ==
+    some ([1133870866, 2139095040, 2143289344], 2143289344)
+
+
+/-! ## `deisotope` on ANY values: only three facts about IEEE `<=` / `<` are assumed -/
+
+/-- three facts about the IEEE comparisons that hold for ALL floats (NaN, ±∞, ±0 included): `<` is irreflexive, `<=` is
+    transitive, and `a < b` excludes `b <= a`.  (They cannot be proved for Lean's opaque `Float32`; they are part of
+    IEEE 754.)  A lawful linear order satisfies them. -/
+class IeeeNum (α : Type) [Num α] : Prop where
+  ltB_irrefl : ∀ x : α, Num.ltB x x = false
+  leB_trans : ∀ a b c : α, Num.leB a b = true → Num.leB b c = true → Num.leB a c = true
+  ltB_not_leB : ∀ a b : α, Num.ltB a b = true → Num.leB b a = false
+
+instance lawfulIeee {α : Type} [LinearOrder α] [Num α] [LawfulNum α] : IeeeNum α where
+  ltB_irrefl x := by simp [LawfulNum.ltB_eq]
+  leB_trans a b c := by simp only [LawfulNum.leB_eq, decide_eq_true_eq]; exact le_trans
+  ltB_not_leB a b := by simp only [LawfulNum.ltB_eq, LawfulNum.leB_eq, decide_eq_true_eq, decide_eq_false_iff_not, not_le]; exact id
+
+section ieee
+variable {α : Type} [Num α] [IeeeNum α]
+
+theorem hit_lt_ieee {inp : Array (α × α)} {maxz : Nat} {ppm minMz : α} {i j z : Nat}
+    (h : HitCtx inp maxz ppm minMz i j z) : j < i := by
+  obtain ⟨mzi, inti, mzj, intj, hi, hj, hji, _, _, hit⟩ := h
+  rcases Nat.eq_zero_or_pos i with h0 | h0
+  · subst h0
+    have : j = 0 := by omega
+    subst this
+    rw [hi] at hj
+    simp only [Option.some.injEq, Prod.mk.injEq] at hj
+    obtain ⟨_, rfl⟩ := hj
+    unfold isoHit at hit
+    rw [Bool.and_eq_true, IeeeNum.ltB_irrefl] at hit
+    exact absurd hit.2 (by simp)
+  · omega
+
+omit [IeeeNum α] in
+theorem hit_witnessB {inp : List (α × α)} {maxz : Nat} {ppm minMz : α} {i j z : Nat}
+    (h : HitCtx inp.toArray maxz ppm minMz i j z) : witness inp.toArray ppm j i z = true ∧ 1 ≤ z ∧ z ≤ maxz := by
+  obtain ⟨mzi, inti, mzj, intj, hi, hj, _, _, hz, hit⟩ := h
+  refine ⟨?_, ?_⟩
+  · unfold witness; rw [hj, hi]; exact hit
+  · unfold charges at hz
+    simp only [List.mem_map, List.mem_range] at hz
+    obtain ⟨a, ha, rfl⟩ := hz
+    omega
+
+/-- **C10.envelope_lighter_ieee** (ANY values, only three IEEE facts about `<=`/`<` assumed) — an envelope link always points to a strictly lower index (a lighter peak when the m/z
+    array is ascending). -/
+theorem envelope_lighter_ieee (inp : List (α × α)) (maxz : Nat) (ppm minMz : α) :
+    ∀ (p : Nat) (d : Deiso α), (deisotope inp maxz ppm minMz)[p]? = some d → ∀ e : Nat, d.envelope = some e → e < p := by
+  refine deisotope_pointwise (fun (p : Nat) (d : Deiso α) => ∀ e : Nat, d.envelope = some e → e < p) inp maxz ppm minMz ?_ ?_
+  · intro p x _ e he; simp [initOf] at he
+  · intro i j z hc
+    refine ⟨fun d a h => h, fun d _ e he => ?_⟩
+    simp only [Option.some.injEq] at he
+    subst he
+    exact hit_lt_ieee hc
+
+/-- **C10.charge_witness_ieee** (ANY values, only three IEEE facts about `<=`/`<` assumed) — for every input (sorted or not), every `max_charge`, `ppm`, `min_mz`: a RETAINED entry
+    (`envelope = none`) carries `charge = some z` only if `1 ≤ z ≤ max_charge` and some later peak `i > p`, strictly less
+    intense, lies `NEUTRON / z` above it within the ppm tolerance (`Witness`). -/
+theorem charge_witness_ieee (inp : List (α × α)) (maxz : Nat) (ppm minMz : α) :
+    ∀ (p : Nat) (d : Deiso α), (deisotope inp maxz ppm minMz)[p]? = some d → d.envelope = none → ∀ z : Nat, d.charge = some z →
+      1 ≤ z ∧ z ≤ maxz ∧ ∃ i, p < i ∧ witness inp.toArray ppm p i z = true := by
+  intro p d hd henv z hz
+  revert z henv
+  revert p d
+  refine deisotope_pointwise (fun (p : Nat) (d : Deiso α) => d.envelope = none → ∀ z : Nat, d.charge = some z →
+      1 ≤ z ∧ z ≤ maxz ∧ ∃ i, p < i ∧ witness inp.toArray ppm p i z = true) inp maxz ppm minMz ?_ ?_
+  · intro p x _ _ z hz; simp [initOf] at hz
+  · intro i j z hc
+    have hw := hit_witnessB hc
+    refine ⟨fun d a _ _ z' hz' => ?_, fun d _ he => ?_⟩
+    · simp only [Option.some.injEq] at hz'
+      subst hz'
+      exact ⟨hw.2.1, hw.2.2, i, hit_lt_ieee hc, hw.1⟩
+    · simp at he
+
+/-- **C10.envelope_witness_ieee** (ANY values, only three IEEE facts about `<=`/`<` assumed) — an entry removed by an envelope (`envelope = some e`) carries a charge `z` with
+    `1 ≤ z ≤ max_charge`, and it is a `z`-isotope of its parent `e`: `NEUTRON / z` above it within tolerance and strictly
+    less intense. ("assigned to a lighter peak's isotope envelope" means exactly this.) -/
+theorem envelope_witness_ieee (inp : List (α × α)) (maxz : Nat) (ppm minMz : α) :
+    ∀ (p : Nat) (d : Deiso α), (deisotope inp maxz ppm minMz)[p]? = some d → ∀ e : Nat, d.envelope = some e →
+      ∃ z, d.charge = some z ∧ 1 ≤ z ∧ z ≤ maxz ∧ witness inp.toArray ppm e p z = true := by
+  -- invariant of the outer loop before iteration `n - 1`: positions below `n` have no envelope yet
+  let Q : Nat → Deiso α → Prop := fun p d => ∀ e : Nat, d.envelope = some e →
+      ∃ z, d.charge = some z ∧ 1 ≤ z ∧ z ≤ maxz ∧ witness inp.toArray ppm e p z = true
+  have key : ∀ (n : Nat) (peaks : Array (Deiso α)),
+      (∀ p d, peaks[p]? = some d → (p < n → d.envelope = none) ∧ Q p d) →
+      ∀ p d, (outer inp.toArray maxz ppm minMz n peaks)[p]? = some d → Q p d := by
+    intro n
+    induction n with
+    | zero => intro peaks h p d hd; exact (h p d hd).2
+    | succ n ih =>
+      intro peaks h
+      unfold outer
+      apply ih
+      refine inner_pointwise (fun p d => (p < n → d.envelope = none) ∧ Q p d) inp.toArray maxz ppm minMz n ?_
+        (n + 1) (n - 1) peaks (Nat.le_refl _) ?_
+      · intro j z hc
+        have hjn := hit_lt_ieee hc
+        have hw := hit_witnessB hc
+        refine ⟨fun d a hq => ⟨fun _ => hq.1 hjn, fun e he => ?_⟩, fun d hq => ⟨fun hlt => absurd hlt (Nat.lt_irrefl _), fun e he => ?_⟩⟩
+        · have := hq.1 hjn
+          simp only at he
+          rw [this] at he; cases he
+        · simp only [Option.some.injEq] at he
+          subst he
+          exact ⟨z, rfl, hw.2.1, hw.2.2, hw.1⟩
+      · intro p d hd
+        exact ⟨fun hlt => (h p d hd).1 (Nat.lt_succ_of_lt hlt), (h p d hd).2⟩
+  intro p d hd
+  unfold deisotope at hd
+  rw [Array.getElem?_toList] at hd
+  refine key inp.length (initPeaks inp.toArray) ?_ p d hd
+  intro p d hd
+  unfold initPeaks at hd
+  rw [Array.getElem?_map] at hd
+  cases hx : inp.toArray[p]? with
+  | none => simp [hx] at hd
+  | some x =>
+    simp only [hx, Option.map_some, Option.some.injEq] at hd
+    subst hd
+    exact ⟨fun _ => rfl, fun e he => by simp at he⟩
+
+/-- **C10.protected_region_ieee** (ANY values, only three IEEE facts about `<=`/`<` assumed) — on a spectrum whose m/z
+    array is ascending under IEEE `<=` (so it contains no NaN m/z), every peak with `mz < min_mz` (IEEE `<`) comes out
+    exactly as it went in: intensity unchanged, `charge = none`, `envelope = none` — whatever the intensities are
+    (NaN, ±∞, negative) and whatever `min_mz`, `ppm`, `max_charge` are. -/
+theorem protected_region_ieee (inp : List (α × α)) (maxz : Nat) (ppm minMz : α)
+    (hsort : inp.Pairwise (fun x y => Num.leB x.1 y.1 = true)) :
+    ∀ (p : Nat) (d : Deiso α), (deisotope inp maxz ppm minMz)[p]? = some d → ∀ x : α × α, inp[p]? = some x →
+      Num.ltB x.1 minMz = true → d = initOf x := by
+  refine deisotope_pointwise (fun (p : Nat) (d : Deiso α) => ∀ x : α × α, inp[p]? = some x →
+      Num.ltB x.1 minMz = true → d = initOf x) inp maxz ppm minMz ?_ ?_
+  · intro p x hx y hy _
+    rw [hx] at hy; cases hy; rfl
+  · intro i j z hc
+    have hji := hit_lt_ieee hc
+    obtain ⟨mzi, inti, mzj, intj, hi, hj, _, hw, _, _⟩ := hc
+    have hmin : Num.leB minMz mzj = true := by
+      unfold whileCond at hw
+      rw [Bool.and_eq_true] at hw
+      exact hw.2
+    have hi' : inp[i]? = some (mzi, inti) := by simpa using hi
+    have hj' : inp[j]? = some (mzj, intj) := by simpa using hj
+    have hij : Num.leB mzj mzi = true := by
+      obtain ⟨hj'', ej⟩ := List.getElem?_eq_some_iff.mp hj'
+      obtain ⟨hi'', ei⟩ := List.getElem?_eq_some_iff.mp hi'
+      have := List.pairwise_iff_getElem.mp hsort j i hj'' hi'' hji
+      rw [ej, ei] at this
+      exact this
+    refine ⟨fun d a _ x hx hlt => ?_, fun d _ x hx hlt => ?_⟩
+    · rw [hj'] at hx; cases hx
+      have := IeeeNum.ltB_not_leB _ _ hlt
+      rw [hmin] at this; cases this
+    · rw [hi'] at hx; cases hx
+      have := IeeeNum.ltB_not_leB _ _ hlt
+      rw [IeeeNum.leB_trans _ _ _ hmin hij] at this; cases this
+
+end ieee
+
+-- examples: the Int toy instance is lawful, hence `IeeeNum`
+example : (3 : Nat) < 4 := envelope_lighter_ieee inpZ 2 10 0 4 _ (by decide +kernel : _ = some ⟨100020, 25, some 1, some 3⟩) 3 rfl
+example : ∃ i, 1 < i ∧ witness inpZ.toArray 10 1 i 2 = true :=
+  (charge_witness_ieee inpZ 2 10 0 1 _ (by decide +kernel : _ = some ⟨100000, 245, some 2, none⟩) rfl 2 rfl).2.2
+example : ∃ z, (some 1 : Option Nat) = some z ∧ 1 ≤ z ∧ z ≤ 2 ∧ witness inpZ.toArray 10 3 4 z = true :=
+  envelope_witness_ieee inpZ 2 10 0 4 _ (by decide +kernel : _ = some ⟨100020, 25, some 1, some 3⟩) 3 rfl
+example : (⟨100000, 100, none, none⟩ : Deiso Int) = initOf (100000, 100) :=
+  protected_region_ieee inpZ 2 10 100006 (by unfold inpZ; decide) 1 _
+    (by decide +kernel : _ = some ⟨100000, 100, none, none⟩) (100000, 100) rfl rfl
+
+
+/-! ## the whole `ProcessedSpectrum` (pass-through fields, precursors) and `process_with_mobility` -/
+
+section fullspec
+variable {α : Type} [Num α]
+
+/-- **C10.processFull_panics_iff** — with every field of the raw spectrum in the model: the only rejected input of
+    `process` is profile data at MS level 2, whatever the values (NaN, ±∞ …), precursors, times, ids are. -/
+theorem processFull_panics_iff (cfg : Cfg α) (r : RawFull α) :
+    processFull cfg r = none ↔ (r.level = 2 ∧ r.centroid = false) := by
+  unfold processFull
+  have := process_panics_iff cfg r.toRaw
+  cases h : process cfg r.toRaw with
+  | none => simp only [true_iff]; exact this.mp h
+  | some o =>
+    simp only [reduceCtorEq, false_iff]
+    intro hc
+    rw [this.mpr hc] at h; cases h
+
+/-- **C10.processFull_passthrough** — `level`, `id`, `file_id`, `scan_start_time`, `ion_injection_time` and the whole
+    `precursors` vector (m/z, intensity, charge, spectrum_ref, isolation window, inverse ion mobility of each) are returned
+    unchanged; peaks and TIC are those of `process` on (level, centroid flag, FIRST precursor's charge, peaks) — so the
+    parser's `total_ion_current`, the mobility array and all other precursor data do not influence them. -/
+theorem processFull_passthrough (cfg : Cfg α) (r : RawFull α) (o : Processed α (Peak α)) (h : processFull cfg r = some o) :
+    o.level = r.level ∧ o.id = r.id ∧ o.fileId = r.fileId ∧ o.scanStartTime = r.scanStartTime ∧
+    o.ionInjectionTime = r.ionInjectionTime ∧ o.precursors = r.precursors ∧
+    process cfg { level := r.level, centroid := r.centroid, charge := r.precursors.head?.bind (·.charge), peaks := r.peaks }
+      = some (o.peaks, o.totalIonCurrent) := by
+  unfold processFull at h
+  cases hp : process cfg r.toRaw with
+  | none => rw [hp] at h; cases h
+  | some lt =>
+    obtain ⟨l, t⟩ := lt
+    rw [hp] at h
+    simp only [Option.some.injEq] at h
+    subst h
+    exact ⟨rfl, rfl, rfl, rfl, rfl, rfl, hp⟩
+
+theorem zipMob_length : ∀ (ps : List (α × α)) (ms : List α), (zipMob ps ms).length = min ps.length ms.length
+  | [], _ => by simp [zipMob]
+  | _ :: _, [] => by simp [zipMob]
+  | (_, _) :: ps, _ :: ms => by simp [zipMob, zipMob_length ps ms, Nat.succ_min_succ]
+
+/-- **C10.processIms_panics_iff** — `process_with_mobility` panics exactly when its two asserted preconditions fail:
+    `ms_level != 1` or `mobility == None`. -/
+theorem processIms_panics_iff (r : RawFull α) : processIms r = none ↔ (r.level ≠ 1 ∨ r.mobility = none) := by
+  unfold processIms
+  by_cases hl : r.level = 1
+  · cases hm : r.mobility with
+    | none => simp [hl]
+    | some m => simp [hl]
+  · simp [hl]
+
+end fullspec
+
+section fullims
+variable {α : Type} [Num α] [TotalNum α]
+open TotalNum
+
+/-- **C10.processIms_spec** — MS1 with ion mobility, ANY values: all `min(n, |mobility|)` peaks are kept, each
+    `((mz − PROTON)·1, intensity, mobility)` of the same index, sorted by mass under `total_cmp`; the TIC is the
+    left-to-right sum of the returned intensities; all other fields pass through. -/
+theorem processIms_spec (r : RawFull α) (o : Processed α (IMPeak α)) (h : processIms r = some o) :
+    ∃ mob, r.mobility = some mob ∧ r.level = 1 ∧
+      o.peaks.Perm (zipMob r.peaks mob) ∧ o.peaks.length = min r.peaks.length mob.length ∧
+      o.peaks.Pairwise (fun a b => Num.tltB b.mass a.mass = false) ∧
+      o.totalIonCurrent = o.peaks.foldl (fun a p => Num.add a p.intensity) Num.sumZero ∧
+      o.level = r.level ∧ o.id = r.id ∧ o.fileId = r.fileId ∧ o.scanStartTime = r.scanStartTime ∧
+      o.ionInjectionTime = r.ionInjectionTime ∧ o.precursors = r.precursors := by
+  unfold processIms at h
+  by_cases hl : r.level = 1
+  · cases hm : r.mobility with
+    | none => simp [hl, hm] at h
+    | some mob =>
+      simp only [hl, ne_eq, not_true_eq_false, ↓reduceIte, hm, Option.some.injEq] at h
+      subst h
+      refine ⟨mob, rfl, hl, List.mergeSort_perm _ _, ?_, ?_, rfl, hl.symm, rfl, rfl, rfl, rfl, rfl⟩
+      · rw [List.length_mergeSort, zipMob_length]
+      · have hle : ∀ a b : IMPeak α, imMassLe a b = true ↔ key a.mass ≤ key b.mass := by
+          intro a b; unfold imMassLe; simp [tltB_eq]
+        have hs := List.pairwise_mergeSort (le := (imMassLe : IMPeak α → IMPeak α → Bool))
+          (by intro a b c; simp only [hle]; exact le_trans)
+          (by intro a b; simp only [Bool.or_eq_true, hle]; exact le_total _ _) (zipMob r.peaks mob)
+        refine hs.imp ?_
+        intro a b hab
+        unfold imMassLe at hab
+        simpa using hab
+  · simp [hl] at h
+
+end fullims
+
+/-- example raw spectrum with two precursors (charges 2 and 4), times, id, a parser TIC and a mobility array -/
+def rawFullZ : RawFull Int :=
+  { fileId := 7, level := 2, id := [115, 49], centroid := true, scanStartTime := 12, ionInjectionTime := 34,
+    totalIonCurrent := -1, peaks := inpZ, mobility := some [1, 2, 3],
+    precursors := [⟨600, some 5, some 2, none, some (.ppm (-10) 10), none⟩, ⟨700, none, some 4, some [120], none, some 1⟩] }
+
+example : rawFullZ.toRaw.charge = some 2 := by decide
+#guard (processFull (cfgZ true) rawFullZ).map (fun o => (o.level, o.id, o.fileId, o.scanStartTime, o.ionInjectionTime,
+    o.precursors.map (·.charge), o.peaks, o.totalIonCurrent)) ==
+  some (2, [115, 49], 7, 12, 34, [some 2, some 4], [⟨7, 98999⟩, ⟨245, 199998⟩], 252)
+example : processFull (cfgZ true) { rawFullZ with centroid := false } = none := (processFull_panics_iff _ _).mpr ⟨rfl, rfl⟩
+example : processIms rawFullZ = none := (processIms_panics_iff _).mpr (Or.inl (by decide))
+example : processIms { rawFullZ with level := 1, mobility := none } = none := (processIms_panics_iff _).mpr (Or.inr rfl)
+-- three mobility values for six peaks: three IM peaks come out
+#guard (processIms { rawFullZ with level := 1 }).map (fun o => o.peaks.map (fun p => (p.mass, p.intensity, p.mobility))) ==
+  some [(98999, 7, 1), (99999, 100, 2), (100004, 50, 3)]
+
 end Sage.C10
